@@ -13,6 +13,8 @@ Template directives (lines starting with `//@`):
   //@ spec                     following lines (until next directive) go between signature and body
   //@ loop <n> [iter <name>]   following lines go into the header of the n-th loop of the body
   //@ closure <n> <new head>   replace the head `|..|` of the n-th closure, following lines are its spec
+  //@ closure-opaque <n> ..    the n-th closure is deliberately left without a specification (its result is not constrained by the
+                               contract, e.g. an error conversion); any OTHER closure without annotation makes the function undecided
   //@ after "<stmt text>"      following lines are inserted after the (unique) statement text
   //@ before "<stmt text>"     same, before
   //@ after-loop <n>           following lines are inserted after the closing brace of the n-th loop
@@ -949,6 +951,7 @@ class FnDirective:
         self.before_loop = {} # n -> lines inserted before the n-th loop statement
         self.fn_begin = []    # lines inserted right after the opening brace of the function body
         self.ghost_params = []  # ghost (erased) parameters appended to the parameter list (rule R10)
+        self.closures_opaque = set()  # closures the contract deliberately leaves without specification (their result is not constrained)
 
 
 def parse_opts(rest):
@@ -1108,6 +1111,8 @@ def _apply_fn_full(d, log, fnmap, out_lineno, stub_only=False):
         be = rs.match_close(body, bk, bo)
         edits.append((be + 1, be + 1, '\n' + '\n'.join(lines) + '\n'))
     closures = rs.find_closures(body, bk, 1, len(body) - 1)
+    # a closure that the contract does not annotate is an unspecified dependency: Verus would accept it and know nothing about its
+    # result, and a harmless `.map(|d| d.clone())` would then fail a postcondition.  Undecided (the function is kept as a stub), never an alarm.
     for n, (head, lines) in d.closures.items():
         if n < 1 or n > len(closures):
             raise Undecided('lost anchor: closure %d of %s (has %d closures)' % (n, d.spec, len(closures)))
@@ -1118,6 +1123,13 @@ def _apply_fn_full(d, log, fnmap, out_lineno, stub_only=False):
         s, e = find_anchor(body, text, '%s-anchor in %s' % (mode, d.spec))
         pos = e if mode == 'after' else s
         edits.append((pos, pos, '\n' + '\n'.join(lines) + '\n'))
+    # a closure that the contract does not annotate (and that no rewrite replaces) is an unspecified dependency: Verus would accept it and
+    # know nothing about its result, so a harmless `.map(|d| d.clone())` would fail a postcondition.  Undecided (stub), never an alarm.
+    bare = [(a, b) for k_, (a, b) in enumerate(closures)
+            if (k_ + 1) not in d.closures_opaque and not any(ea <= a and b <= eb and eb > ea for (ea, eb, _t) in edits)]
+    if bare:
+        raise Undecided('the body of %s contains %d closure(s) that the contract does not annotate: an unannotated closure has no specification'
+                        % (d.spec, len(bare)))
     edits.sort(key=lambda t: (t[0], t[1]))
     for i in range(len(edits) - 1):
         if edits[i][1] > edits[i + 1][0]:
@@ -1392,6 +1404,9 @@ def expand(template_path, out_path, extra_tail=''):
                     elif c2.startswith('sig '):
                         old, new = c2[4:].split('=>')
                         d.sigsubs.append((old.strip(), new.strip()))
+                        cur = None
+                    elif c2.startswith('closure-opaque '):
+                        d.closures_opaque.update(int(x) for x in c2[len('closure-opaque '):].split())
                         cur = None
                     elif c2.startswith('ghost-param '):
                         d.ghost_params.append(c2[len('ghost-param '):].strip())
